@@ -20,7 +20,7 @@ META = dict(
     technique="stateless bounded-exhaustive exploration of (program, edit tick, edit kind[, second edit]) on the real Engine with a differential oracle",
     text="Every program of the sub-grammar up to the size bound is run on the real engine; at every tick of the run every "
          "edit kind (append at end / in an open body, insert before / change / delete a not-started line, change a started or "
-         "completed line, re-save) is applied through Engine.set_method and the run is compared with a fresh run of the final "
+         "completed line, change a line that was reported executed earlier (macro definition during its call), re-save) is applied through Engine.set_method and the run is compared with a fresh run of the final "
          "method (per-line execution counts, per-scope mark order, command life cycles, final method state), with the method "
          "state before/after the call, and for rejected edits with the unedited run tick for tick.",
     note="Small-scope: programs <= 3 statements (4 thorough), nesting <= 2, 1-2 edits; Alarm bodies and never-ending commands "
@@ -99,11 +99,19 @@ def projection(run: Run, lines):
     }
 
 
-def make_edits(lines, ms, n_tag):
-    """All edit variants applicable to `lines` given the reported method state. -> [(kind, new_lines, expect)]"""
+def make_edits(lines, ms, n_tag, ever=()):
+    """All edit variants applicable to `lines` given the reported method state. -> [(kind, new_lines, expect)]
+    `ever`: ids of lines that were reported started or executed at some earlier tick (a macro definition is reported executed
+    before the call and not during it)."""
     info = pgen.line_info(lines)
     touched = set(ms["started"]) | set(ms["executed"]) | set(ms["failed"])
     out = []
+    once = [li for li in info if li["id"] in ever and li["id"] not in touched and not li["blank"] and li["name"] in CHANGE]
+    if once:
+        li = once[0]
+        new = list(lines)
+        new[li["idx"]] = (li["id"], " " * li["indent"] + CHANGE[li["name"]].format(n=n_tag))
+        out.append((f"change-once-executed:{li['name']}", new, "reject"))
     out.append(("resave", list(lines), "accept"))
     out.append(("append-end", list(lines) + [(f"N{n_tag}a", f"Mark: z{n_tag}a")], "accept"))
     # append at the end of every open body
@@ -115,13 +123,13 @@ def make_edits(lines, ms, n_tag):
             new = list(lines)
             new.insert(end, (f"N{n_tag}b{li['idx']}", " " * (li["indent"] + 4) + f"Mark: z{n_tag}b{li['idx']}"))
             out.append((f"append-body:{li['name']}", new, "accept"))
-    untouched_top = [li for li in info if li["id"] not in touched and li["indent"] == 0]
+    untouched_top = [li for li in info if li["id"] not in touched and li["id"] not in ever and li["indent"] == 0]
     if untouched_top:
         li = untouched_top[0]
         new = list(lines)
         new.insert(li["idx"], (f"N{n_tag}c", f"Mark: z{n_tag}c"))
         out.append(("insert-before-unstarted", new, "accept"))
-    untouched = [li for li in info if li["id"] not in touched and not li["blank"]]
+    untouched = [li for li in info if li["id"] not in touched and li["id"] not in ever and not li["blank"]]
     leaf = [li for li in untouched if not (li["opener"] and li["idx"] + 1 < len(lines) and info[li["idx"] + 1]["indent"] > li["indent"])]
     if leaf:
         li = leaf[-1]
@@ -340,9 +348,11 @@ def explore_program(item):
             res["nontrivial"] += 1
 
     # tick 0 executes Start; a run is active from tick 1 on (an edit before that is not a *live* edit)
+    ever = set()
     for t in range(1, last_tick + 1):
         ms = base.obs[t - 1]["mstate"]
-        for kind, new_lines, expect in make_edits(lines0, ms, 1):
+        ever |= (set(ms["started"]) | set(ms["executed"])) - {"root"}
+        for kind, new_lines, expect in make_edits(lines0, ms, 1, frozenset(ever)):
             v, status, q = check_edit(lines0, {}, t, kind, new_lines, expect, horizon, base, finals)
             account(status, kind.split(":")[0], bool(ms["executed"]))
             for sig, what in v:
@@ -375,9 +385,10 @@ def corpus(ctx):
     if ctx.quick:
         two_small = set(pgen.forests(["M", "L", "K", "W"], 2, 2))
         three = list(pgen.forests(["M", "L", "K", "Wa", "W"], 3, 2))
+        macro3 = [f for f in pgen.forests(["MA", "CA", "W", "M"], 3, 2) if {"MA", "CA"} <= set(pgen.kinds_flat(f))]
         items = ([(f, H_QUICK, True) for f in one] + [(f, H_QUICK, f in two_small) for f in two]
-                 + [(f, H_QUICK, False) for f in three])
-        bounds = "1 stmt and 2 stmts over {M,L,K,W}: two successive edits; 2 stmts full grammar and 3 stmts over {M,L,K,Wa,W}: one edit"
+                 + [(f, H_QUICK, False) for f in three + macro3])
+        bounds = "1 stmt and 2 stmts over {M,L,K,W}: two successive edits; 2 stmts full grammar and 3 stmts over {M,L,K,Wa,W} and 3 stmts over {MA,CA,W,M} with a macro that is called: one edit"
     else:
         three = list(pgen.forests(KINDS_FULL, 3, 2))
         four = list(pgen.forests(KINDS_3, 4, 2))
